@@ -1,15 +1,505 @@
-import VncModel.Httpd.Model
+import VncModel.Httpd.Lemmas
+/-!
+# C20 — the built-in HTTP server only serves files below its directory and survives any request
+
+Property theorems only; helper lemmas are in `VncModel/Httpd/Lemmas.lean`, the executable model in
+`VncModel/Httpd/Model.lean` (mirrors `httpProcessInput`, `parseParams`, `validateString` of
+`src/libvncserver/httpd.c`; all literals and buffer sizes are the regenerated `VncModel.Gen.C20`).
+The model is tied to the code by the correspondence run `harness/c20.c` ⇄ `Driver/C20.lean`.
+
+What is modelled: one call of `httpProcessInput` = directory-length guard, the accumulation loop
+(`accumulate`: arbitrary pieces handed out by `read`, then EAGAIN or EOF; `buf[32768]`), the proxy
+branch, the GET-line parse (`strcspn`, length test, `sscanf "%s"`), '?' split + `parseParams` +
+`validateString`, the ".." test, the index rule, the `.vnc` flag; then `respond` (status, content
+type, `$`-substitution per `fread` chunk).  Every function returns the extents of its writes into
+the fixed-size buffers.  `fixed = true` is the code with `fixes/C20-proxy-null.diff` and
+`fixes/C20-params-uninit.diff`; `fixed = false` is the code as found (NULL dereference = `crash`).
+
+Quantifiers: every configuration (`dir`, proxy flag, port), every list of pieces (= every request
+byte string under every segmentation by `read`), both ways a burst can end (EAGAIN / EOF = early
+close).  Bytes that arrive in a *later* call are a new `processCallW`: the code resets
+`buf_filled` at the start of every call, nothing is carried over (that is the code's behaviour,
+not a modelling shortcut, and it is compared on the real server).
+
+Not proved here (stated in docs/C20.md): bounds on the time `rfbWriteExact` may block when the peer
+does not read (per write, C04); behaviour of the RFB layer after a proxy hand-over.
+-/
 namespace VncModel.Props.C20
 open VncModel.Httpd VncModel.Gen.C20
 
-theorem proxy_only_if_enabled (cfg : Cfg) (b : Bytes) (h : decideReq cfg b = .proxyOk) : cfg.proxy = true := by
-  unfold decideReq decideV decideW at h
+/-! ## 1. confinement -/
+
+/-- **serves_only_under_dir**: whatever bytes arrive in whatever pieces, if the call opens a file
+then its name is `httpDir ++ f` where `f` starts with '/', does not contain "..", contains no NUL
+(so the C string handed to `fopen` is exactly this list) and fits `fullFname[512]` with its NUL. -/
+theorem serves_only_under_dir (fixed : Bool) (cfg : Cfg) (chunks : List Bytes) (e : SockEnd)
+    (path params : Bytes) (subst : Bool)
+    (h : (processCallW fixed cfg chunks e).1 = .serve path params subst) :
+    ∃ f, path = cfg.dir ++ f ∧ f.head? = some 47 ∧ hasSub litDotDot f = false ∧ (∀ x ∈ f, x ≠ 0) ∧
+      path.length + 1 ≤ fullFnameSize := by
+  rw [processCallW_fst] at h
+  split at h
+  · simp at h
+  · rename_i hd
+    split at h
+    · simp at h
+    · simp at h
+    · rename_i b rest hb
+      rw [decideW_fst] at h
+      split at h
+      · rename_i o ho
+        split at ho
+        · rcases proxyBranch_cases _ _ _ _ ho with h' | h' | h' <;> simp [h'] at h
+        · simp at ho
+      · obtain ⟨tok, f, _, _, _, _, _, _, hp, hg, _, _⟩ :=
+          getBranch_serve cfg (cstr b) path params subst (cstr_no_nul b) (by omega) h
+        exact ⟨f, hp, hg.head, hg.nodd, hg.nonul, by rw [hp, List.length_append]; exact hg.fits⟩
+
+/-- **lexical confinement**: a name without the substring ".." has no ".." component, so walking
+its components below the directory never goes up: the walk succeeds (`resolve` ≠ none means "never
+tried to leave the root") and ends at or below the root.  In a tree without symbolic links this
+is where the kernel ends up, too (assumption, stated in the evidence). -/
+theorem served_path_confined (fixed : Bool) (cfg : Cfg) (chunks : List Bytes) (e : SockEnd)
+    (path params : Bytes) (subst : Bool)
+    (h : (processCallW fixed cfg chunks e).1 = .serve path params subst) :
+    ∃ f st, path = cfg.dir ++ f ∧ (∀ c ∈ splitSlash f, c ≠ [46, 46]) ∧ resolve [] (splitSlash f) = some st := by
+  obtain ⟨f, hp, _, hdd, _, _⟩ := serves_only_under_dir fixed cfg chunks e path params subst h
+  rw [litDotDot_eq] at hdd
+  have hc := no_dotdot_component f hdd
+  obtain ⟨st, hst, _⟩ := resolve_no_dotdot (splitSlash f) [] hc
+  exact ⟨f, st, hp, hc, hst⟩
+
+/-- only a `serve` outcome touches the file system, and only through that one path -/
+theorem opens_only_served_path (o : Outcome) (p : Bytes) (h : opened o = some p) :
+    ∃ params subst, o = .serve p params subst := by
+  cases o <;> simp [opened] at h
+  exact ⟨_, _, by rw [h]⟩
+
+/-- the response does not depend on the file system unless the outcome is `serve` -/
+theorem respond_ignores_fs (env : Env) (cfg : Cfg) (fs fs' : Bytes → FsRes) (o : Outcome)
+    (h : opened o = none) : respond env cfg fs o = respond env cfg fs' o := by
+  cases o <;> first | rfl | (simp [opened] at h)
+  all_goals (rename_i code; unfold respond; split <;> simp_all)
+
+/-! ## 2. query parameters -/
+
+/-- **params_harmless_alphabet**: the `params[]` buffer that `$PARAMS` expands to is empty or a
+sequence of `<PARAM NAME="n" VALUE="v">\n` with `n`, `v` over the harmless alphabet
+(`isalnum`, `_ . : [ ]`, and ' ' for '+'), `v` non-empty; and it fits `params[1024]`. -/
+theorem params_harmless_alphabet (fixed : Bool) (cfg : Cfg) (chunks : List Bytes) (e : SockEnd)
+    (path params : Bytes) (subst : Bool)
+    (h : (processCallW fixed cfg chunks e).1 = .serve path params subst) :
+    (params = [] ∨ ParamLang params) ∧ params.length + 1 ≤ paramsSize := by
+  rw [processCallW_fst] at h
+  split at h
+  · simp at h
+  · rename_i hd
+    split at h
+    · simp at h
+    · simp at h
+    · rename_i b rest hb
+      rw [decideW_fst] at h
+      split at h
+      · rename_i o ho
+        split at ho
+        · rcases proxyBranch_cases _ _ _ _ ho with h' | h' | h' <;> simp [h'] at h
+        · simp at ho
+      · obtain ⟨tok, f, _, _, _, _, _, _, _, _, _, hpar⟩ :=
+          getBranch_serve cfg (cstr b) path params subst (cstr_no_nul b) (by omega) h
+        rw [hpar]; exact queryParams_spec tok
+
+/-- what "harmless" excludes: every byte outside printable ASCII (so no NUL, no control byte,
+nothing ≥ 0x7f) and the bytes that could end the quoted HTML attribute or start markup
+(`" ' < > & \\` and the back-tick) — checked for all 256 byte values against the regenerated
+`alphaExtra`/`alphaTo` -/
+theorem harmless_excludes (b : UInt8) (h : harmless b = true) :
+    32 ≤ b.toNat ∧ b.toNat < 127 ∧ b.toNat ≠ 34 ∧ b.toNat ≠ 39 ∧ b.toNat ≠ 60 ∧ b.toNat ≠ 62 ∧ b.toNat ≠ 38 ∧
+      b.toNat ≠ 92 ∧ b.toNat ≠ 96 := by
+  have hb : UInt8.ofNat b.toNat = b := by simp
+  exact harmless_table b.toNat b.toNat_lt (by rw [hb]; exact h)
+
+/-! ## 3. buffers -/
+
+/-- **buffers_in_bounds**: every write the call performs into `buf`, `fullFname`, `params`,
+`param_request`, `param_formatted` ends inside the array (extents include the terminating NUL),
+for every configuration, every request, every segmentation, fixed or not. -/
+theorem buffers_in_bounds (fixed : Bool) (cfg : Cfg) (chunks : List Bytes) (e : SockEnd) :
+    ∀ w ∈ (processCallW fixed cfg chunks e).2.2, w.hi ≤ bufSize w.id := by
+  intro w hw
+  obtain ⟨hd, hw⟩ := processCallW_writes fixed cfg chunks e w hw
+  obtain ⟨_, _, ff3⟩ := fname_fits
+  rcases hw with hw | hw | ⟨b, rest, hb, hw⟩
+  · subst hw; simp only [bufSize]; omega
+  · obtain ⟨h1, h2⟩ := accumulate_bounds chunks [] e w hw
+    rw [h1]; exact h2
+  · obtain ⟨_, _, hlen, _⟩ := accumulate_complete chunks [] e b rest hb
+    have := cstr_length_le b
+    exact getBranch_bounds cfg (cstr b) hd (by omega) w (decideW_snd fixed cfg b w hw)
+
+/-- the `read` never gets more room than the buffer has left (and one byte stays for the NUL):
+the count passed to `read` plus the fill level is below `sizeof buf` -/
+theorem read_count_in_bounds (acc : Bytes) (h : acc.length + readSlack ≤ sizeofBuf) :
+    acc.length + room acc + 1 ≤ sizeofBuf := by
+  have := readSlack_pos
+  simp only [room]; omega
+
+/-- `str[256+32]` takes every `sprintf` of the substitution loop, for 32-bit `int` geometry/port and
+any host name that fits `thisHost[255]` -/
+theorem str_in_bounds (env : Env) (cfg : Cfg)
+    (hw : env.width.natAbs ≤ 2147483648) (hh : env.height.natAbs ≤ 2147483648)
+    (hp : cfg.port.natAbs ≤ 2147483648) (hhost : env.thisHost.length + 1 ≤ thisHostSize) :
+    ∀ w ∈ strWrites env cfg, w.hi ≤ bufSize w.id := by
+  have c1 : thisHostSize + 1 + 11 ≤ strSize := by decide
+  have c2 : appletHeightExtra ≤ 1000 ∧ displayBase ≤ 100000 := by decide
+  have d1 := decimal_length env.width (by omega)
+  have d2 := decimal_length env.height (by omega)
+  have d3 := decimal_length (env.height + appletHeightExtra) (by omega)
+  have d4 := decimal_length cfg.port (by omega)
+  have d5 := decimal_length (cfg.port - displayBase) (by omega)
+  intro w hw
+  simp only [strWrites, List.mem_cons, List.not_mem_nil, or_false] at hw
+  rcases hw with hw | hw | hw | hw | hw <;> subst hw <;>
+    simp only [bufSize, List.length_append, List.length_singleton] <;> omega
+
+/-- the substitution loop's `buf[n] = 0` is inside `buf`: `fread` chunks are at most
+`BUF_SIZE - 1` bytes, and the chunks are exactly the file -/
+theorem fread_chunks_in_bounds (content : Bytes) :
+    (∀ c ∈ chunksOf (BUF_SIZE - freadSlack) content.length content, c.length + 1 ≤ sizeofBuf) ∧
+    (chunksOf (BUF_SIZE - freadSlack) content.length content).flatten = content := by
+  have hc : BUF_SIZE - freadSlack + 1 ≤ sizeofBuf ∧ 0 < BUF_SIZE - freadSlack := by decide
+  refine ⟨fun c h => ?_, chunksOf_flatten _ hc.2 _ _ (Nat.le_refl _)⟩
+  have := chunksOf_length _ _ _ c h
+  omega
+
+/-! ## 4. proxy requests -/
+
+/-- **proxy_only_if_enabled** -/
+theorem proxy_only_if_enabled (fixed : Bool) (cfg : Cfg) (chunks : List Bytes) (e : SockEnd)
+    (h : (processCallW fixed cfg chunks e).1 = .proxyOk) : cfg.proxy = true := by
+  rw [processCallW_fst] at h
+  split at h
+  · simp at h
+  · split at h
+    · simp at h
+    · simp at h
+    · rename_i b rest hb
+      cases hp : cfg.proxy
+      · rw [decideW_noproxy fixed cfg b hp] at h
+        unfold getBranch at h
+        simp only [] at h
+        repeat' split at h
+        all_goals simp at h
+      · rfl
+
+/-- and when it is enabled, exactly the two documented forms are honoured: `CONNECT …:<port>` with
+the screen's port after the first ':' of the buffer, or a `GET ` request whose first '/' starts
+`/proxied.connection HTTP/1.` -/
+theorem proxy_forms (cfg : Cfg) (b : Bytes) (h : decideReq cfg b = .proxyOk) :
+    cfg.proxy = true ∧
+    ((litConnect.isPrefixOf (cstr b) = true ∧ ∃ r, strchr 58 (cstr b) = some r ∧ atoi (r.drop 1) = cfg.port) ∨
+     (litGet.isPrefixOf (cstr b) = true ∧ ∃ r, strchr 47 (cstr b) = some r ∧ litProxied.isPrefixOf r = true)) := by
+  unfold decideReq decideV at h
+  rw [decideW_fst] at h
   cases hp : cfg.proxy
   · simp only [hp, Bool.false_eq_true, ↓reduceIte] at h
     unfold getBranch at h
     simp only [] at h
     repeat' split at h
-    all_goals simp_all
+    all_goals simp at h
+  · refine ⟨rfl, ?_⟩
+    simp only [hp, ↓reduceIte] at h
+    split at h
+    · rename_i o ho
+      subst h
+      unfold proxyBranch at ho
+      split at ho
+      · rename_i hc
+        split at ho
+        · simp at ho
+        · rename_i r hr
+          split at ho
+          · simp at ho
+          · rename_i hport
+            exact Or.inl ⟨hc, r, hr, by simpa using hport⟩
+      · split at ho
+        · rename_i hg
+          split at ho
+          · simp at ho
+          · rename_i r hr
+            split at ho
+            · rename_i hpx
+              exact Or.inr ⟨hg, r, hr, hpx⟩
+            · simp at ho
+        · simp at ho
+    · unfold getBranch at h
+      simp only [] at h
+      repeat' split at h
+      all_goals simp at h
+
+/-! ## 5. every other request: error or close, never a file -/
+
+/-- **every_other_request_errors_or_closes** (shape of the outcome): the fixed code never crashes;
+an outcome is `pending` only while the peer is still connected and has sent no blank line (EAGAIN);
+otherwise it is a silent close, a 400/404 error response followed by a close, the proxy hand-over,
+or `serve`.  Nothing else exists. -/
+theorem every_request_is_answered_or_closed (cfg : Cfg) (chunks : List Bytes) (e : SockEnd)
+    (o : Outcome) (ho : o = (processCallW true cfg chunks e).1) :
+    o ≠ .crash ∧ (o = .pending → e = .eagain) ∧ (∀ code, o = .error code → code = 400 ∨ code = 404) := by
+  rw [processCallW_fst] at ho
+  split at ho
+  · subst ho; simp
+  · split at ho
+    · rename_i hacc
+      subst ho
+      refine ⟨by simp, fun _ => ?_, by simp⟩
+      cases chunks with
+      | nil =>
+        rw [acc_nil] at hacc
+        split at hacc
+        · simp at hacc
+        · cases e <;> simp_all
+      | cons c cs =>
+        -- pending can only come out of the final EAGAIN
+        have : ∀ (cs : List Bytes) (acc : Bytes), (accumulate acc cs e).1 = .pending → e = .eagain := by
+          intro cs
+          induction cs with
+          | nil =>
+            intro acc h
+            rw [acc_nil] at h
+            split at h
+            · simp at h
+            · cases e <;> simp_all
+          | cons c cs ih =>
+            intro acc h
+            rw [acc_cons] at h
+            repeat' split at h
+            all_goals first | (simp at h; done) | exact ih _ h
+        exact this _ _ hacc
+    · subst ho; simp
+    · rename_i b rest hb
+      rw [decideW_fst] at ho
+      obtain ⟨g1, g2, g3, g4⟩ := getBranch_no_crash_no_pending cfg (cstr b)
+      split at ho
+      · rename_i o' ho'
+        subst ho
+        split at ho'
+        · rcases proxyBranch_cases _ _ _ _ ho' with h | h | h
+          · subst h; simp
+          · subst h; simp
+          · simp at h
+        · simp at ho'
+      · subst ho
+        exact ⟨g1, fun h => absurd h g2, fun code h => Or.inr (g4 code h)⟩
+
+/-- a request that is not a `GET ` never reaches the file system: with proxy support off it is
+closed without a response, with proxy support on it may only be a 400 or a proxy hand-over -/
+theorem non_get_never_served (fixed : Bool) (cfg : Cfg) (b : Bytes) (h : litGet.isPrefixOf (cstr b) = false) :
+    opened (decideV fixed cfg b) = none ∧ (cfg.proxy = false → decideV fixed cfg b = .close .noGet) := by
+  have hg : (getBranch cfg (cstr b)).1 = .close .noGet := by
+    unfold getBranch; simp [h]
+  unfold decideV
+  rw [decideW_fst]
+  constructor
+  · split
+    · rename_i o ho
+      split at ho
+      · rcases proxyBranch_cases _ _ _ _ ho with h' | h' | h' <;> simp [h', opened]
+      · simp at ho
+    · rw [hg]; rfl
+  · intro hp; simp [hp, hg]
+
+/-- what a served request must have looked like: a blank line was seen, the buffer starts with
+`GET `, its first line fits `maxFnameLen`, `sscanf` found a name, the name starts with '/' and its
+path part has no ".."; the file name is that path part (or `/index.vnc` for "/") -/
+theorem served_only_for_valid_get (fixed : Bool) (cfg : Cfg) (chunks : List Bytes) (e : SockEnd)
+    (path params : Bytes) (subst : Bool)
+    (h : (processCallW fixed cfg chunks e).1 = .serve path params subst) :
+    ∃ b rest tok, (accumulate [] chunks e).1 = .complete b rest ∧ hasTerminator (cstr b) = true ∧
+      litGet.isPrefixOf (cstr b) = true ∧ (firstLine (cstr b)).length ≤ maxFnameLen cfg ∧
+      scanGet (firstLine (cstr b)) = some tok ∧ tok.head? = some 47 ∧
+      hasSub litDotDot (tok.takeWhile (· != 63)) = false ∧
+      path = cfg.dir ++ (indexRule cfg (tok.takeWhile (· != 63))).1 := by
+  rw [processCallW_fst] at h
+  split at h
+  · simp at h
+  · rename_i hd
+    split at h
+    · simp at h
+    · simp at h
+    · rename_i b rest hb
+      rw [decideW_fst] at h
+      split at h
+      · rename_i o ho
+        split at ho
+        · rcases proxyBranch_cases _ _ _ _ ho with h' | h' | h' <;> simp [h'] at h
+        · simp at ho
+      · obtain ⟨tok, f, h1, h2, h3, h4, h5, h6, h7, _, _, _⟩ :=
+          getBranch_serve cfg (cstr b) path params subst (cstr_no_nul b) (by omega) h
+        exact ⟨b, rest, tok, hb, (accumulate_complete chunks [] e b rest hb).1, h1, h2, h3, h4, h5, by rw [h7, h6]⟩
+
+/-- over-long request lines are closed without a response (proxy support off) -/
+theorem overlong_line_closes (cfg : Cfg) (b : Bytes) (hp : cfg.proxy = false)
+    (hg : litGet.isPrefixOf (cstr b) = true) (hl : (firstLine (cstr b)).length > maxFnameLen cfg) :
+    decideReq cfg b = .close .lineTooLong := by
+  unfold decideReq decideV
+  rw [decideW_noproxy true cfg b hp]
+  unfold getBranch
+  simp [hg, hl]
+
+/-! ## 6. segmentation -/
+
+/-- **segmentation independence, proxy support off**: how `read` cuts the bytes of one burst into
+pieces does not change the outcome of the call (same file, same error, same close, same "still
+waiting") — including the bursts that fill the buffer. -/
+theorem segmentation_independent (fixed : Bool) (cfg : Cfg) (hp : cfg.proxy = false)
+    (chunks : List Bytes) (e : SockEnd) :
+    (processCallW fixed cfg chunks e).1 = (processCallW fixed cfg [chunks.flatten] e).1 := by
+  rw [processCallW_fst, processCallW_fst]
+  split
   · rfl
+  · have h := accumulate_flatten chunks [] e
+    cases h1 : (accumulate [] chunks e).1 <;> cases h2 : (accumulate [] [chunks.flatten] e).1 <;>
+      rw [h1, h2] at h <;> simp only [AccEquiv] at h <;> try contradiction
+    · rename_i b r b' r'
+      simp only []
+      rw [decideW_noproxy fixed cfg b hp, decideW_noproxy fixed cfg b' hp]
+      exact getBranch_firstLine cfg _ _ h.2.2.2
+    all_goals first | rfl | (subst h; rfl)
+
+/-- **segmentation, any configuration**: a call that decides anything decides it on a prefix of the
+burst that contains a blank line (what was received when the blank line first became visible at a
+`read` boundary); with proxy support on, the proxy tests look at the whole of that prefix, which is
+the only way segmentation can matter (example below). -/
+theorem decides_on_prefix_with_blank_line (fixed : Bool) (cfg : Cfg) (chunks : List Bytes) (e : SockEnd)
+    (hd : cfg.dir.length ≤ dirMax) :
+    (∃ b rest, b ++ rest = chunks.flatten ∧ hasTerminator (cstr b) = true ∧
+        (processCallW fixed cfg chunks e).1 = decideV fixed cfg b) ∨
+    (processCallW fixed cfg chunks e).1 = .pending ∨ ∃ why, (processCallW fixed cfg chunks e).1 = .close why := by
+  rw [processCallW_fst]
+  have : ¬ cfg.dir.length > dirMax := by omega
+  simp only [this, ↓reduceIte]
+  cases h : (accumulate [] chunks e).1 with
+  | complete b rest =>
+    obtain ⟨h1, h2, _, _⟩ := accumulate_complete chunks [] e b rest h
+    exact Or.inl ⟨b, rest, by simpa using h2, h1, rfl⟩
+  | pending => exact Or.inr (Or.inl rfl)
+  | closed why => exact Or.inr (Or.inr ⟨why, rfl⟩)
+
+/-- "GET x\n\n/proxied.connection HTTP/1." -/
+def reqSplit : Bytes :=
+  [71,69,84,32,120,10,10,47,112,114,111,120,105,101,100,46,99,111,110,110,101,99,116,105,111,110,32,72,84,84,80,47,49,46]
+
+/-- with proxy support on the outcome *can* depend on the segmentation: in one piece the bytes
+after the blank line satisfy the `/proxied.connection` test, cut after the blank line they are
+never looked at -/
+theorem segmentation_matters_with_proxy :
+    (processCallW true ⟨[47, 119], true, 5900⟩ [reqSplit] .eagain).1 = .proxyOk ∧
+    (processCallW true ⟨[47, 119], true, 5900⟩ [reqSplit.take 7, reqSplit.drop 7] .eagain).1 = .error 404 := by
+  decide
+
+/-! ## 7. the code as found (`fixed = false`) -/
+
+/-- "CONNECT x\n\n" and "GET x\n\n" -/
+def reqConnectNoColon : Bytes := [67,79,78,78,69,67,84,32,120,10,10]
+def reqGetNoSlash : Bytes := [71,69,84,32,120,10,10]
+
+/-- counter-example for the code as found: with proxy support on, `CONNECT` without ':' and `GET`
+without '/' dereference NULL (replayed on the implementation: corpus/C20/proxy-null-*.ops) -/
+theorem unfixed_crashes :
+    (processCallW false ⟨[47, 119], true, 5900⟩ [reqConnectNoColon] .eagain).1 = .crash ∧
+    (processCallW false ⟨[47, 119], true, 5900⟩ [reqGetNoSlash] .eagain).1 = .crash ∧
+    (processCallW true ⟨[47, 119], true, 5900⟩ [reqConnectNoColon] .eagain).1 = .error 400 ∧
+    (processCallW true ⟨[47, 119], true, 5900⟩ [reqGetNoSlash] .eagain).1 = .error 404 := by
+  decide
+
+/-- exactly these requests crash the code as found … -/
+theorem unfixed_crash_iff (cfg : Cfg) (b : Bytes) :
+    decideV false cfg b = .crash ↔
+      cfg.proxy = true ∧
+      ((litConnect.isPrefixOf (cstr b) = true ∧ strchr 58 (cstr b) = none) ∨
+       (litConnect.isPrefixOf (cstr b) = false ∧ litGet.isPrefixOf (cstr b) = true ∧ strchr 47 (cstr b) = none)) := by
+  obtain ⟨g1, _, _, _⟩ := getBranch_no_crash_no_pending cfg (cstr b)
+  unfold decideV
+  rw [decideW_fst]
+  cases hp : cfg.proxy
+  · simp [g1]
+  · simp only [↓reduceIte, true_and]
+    unfold proxyBranch
+    cases hc : litConnect.isPrefixOf (cstr b)
+    · cases hg : litGet.isPrefixOf (cstr b)
+      · simp [g1]
+      · cases hs : strchr 47 (cstr b) with
+        | none => simp
+        | some r => by_cases hx : litProxied.isPrefixOf r = true <;> simp [hx, g1]
+    · cases hs : strchr 58 (cstr b) with
+      | none => simp
+      | some r => by_cases hx : atoi r.tail = cfg.port <;> simp [hx]
+
+/-- … and on every other request the fix changes nothing -/
+theorem fix_changes_nothing_else (cfg : Cfg) (b : Bytes) (h : decideV false cfg b ≠ .crash) :
+    decideV true cfg b = decideV false cfg b := by
+  unfold decideV at h ⊢
+  rw [decideW_fst] at h ⊢
+  rw [decideW_fst]
+  cases hp : cfg.proxy
+  · simp
+  · simp only [hp, ↓reduceIte] at h ⊢
+    unfold proxyBranch at h ⊢
+    cases hc : litConnect.isPrefixOf (cstr b)
+    · cases hg : litGet.isPrefixOf (cstr b)
+      · simp
+      · cases hs : strchr 47 (cstr b) with
+        | none => simp [hc, hg, hs] at h
+        | some r => simp
+    · cases hs : strchr 58 (cstr b) with
+      | none => simp [hc, hs] at h
+      | some r => simp
+
+/-! ## 8. substitution -/
+
+/-- a file without '$' is sent unchanged even when it is a `.vnc` file, whatever the parameters -/
+theorem body_identity_without_dollar (env : Env) (cfg : Cfg) (params content : Bytes) (subst : Bool)
+    (h : (36 : UInt8) ∉ content) : body env cfg params subst content = content := by
+  unfold body
+  split
+  · have hc : 0 < BUF_SIZE - freadSlack := by decide
+    have hfl := chunksOf_flatten (BUF_SIZE - freadSlack) hc content.length content (Nat.le_refl _)
+    have : ∀ c ∈ chunksOf (BUF_SIZE - freadSlack) content.length content, (36 : UInt8) ∉ c := by
+      intro c hc' h36
+      apply h
+      rw [← hfl]
+      exact List.mem_flatten.2 ⟨c, hc', h36⟩
+    rw [List.map_congr_left (fun c hc' => substChunk_id _ c (this c hc')), List.map_id', hfl]
+  · rfl
+
+/-! ## non-vacuity -/
+
+def cfgA : Cfg := { dir := [47, 119], proxy := false, port := 5900 }
+/-- "GET /a.txt HTTP/1.0\r\n\r\n" -/
+def reqA : Bytes := [71,69,84,32,47,97,46,116,120,116,32,72,84,84,80,47,49,46,48,13,10,13,10]
+/-- "GET /?a=b+c HTTP/1.0\n\n" -/
+def reqQ : Bytes := [71,69,84,32,47,63,97,61,98,43,99,32,72,84,84,80,47,49,46,48,10,10]
+/-- "GET /../secret\n\n" -/
+def reqT : Bytes := [71,69,84,32,47,46,46,47,115,101,99,114,101,116,10,10]
+
+-- serves_only_under_dir / served_only_for_valid_get / segmentation: hypotheses are satisfiable
+example : (processCallW true cfgA [reqA] .eagain).1 = .serve [47,119,47,97,46,116,120,116] [] false := by decide
+example : (processCallW true cfgA [reqA.take 7, reqA.drop 7] .eof).1 =
+    .serve [47,119,47,97,46,116,120,116] [] false := by decide
+-- params_harmless_alphabet: a non-empty accepted parameter string ('+' became ' '), index rule, .vnc flag
+example : (processCallW true cfgA [reqQ] .eagain).1 =
+    .serve [47,119,47,105,110,100,101,120,46,118,110,99]
+      (paramFmtA ++ [97] ++ paramFmtB ++ [98, 32, 99] ++ paramFmtC) true := by decide
+-- traversal attempt: 404, nothing opened
+example : (processCallW true cfgA [reqT] .eagain).1 = .error 404 := by decide
+-- pending / early close / proxy
+example : (processCallW true cfgA [reqA.take 7] .eagain).1 = .pending := by decide
+example : (processCallW true cfgA [reqA.take 7] .eof).1 = .close .eof := by decide
+example : (processCallW true ⟨[47, 119], true, 5900⟩
+    [[67,79,78,78,69,67,84,32,104,58,53,57,48,48,10,10]] .eagain).1 = .proxyOk := by decide
+example : (processCallW true cfgA [[67,79,78,78,69,67,84,32,104,58,53,57,48,48,10,10]] .eagain).1 =
+    .close .noGet := by decide
+-- buffers_in_bounds quantifies over a non-empty list of writes
+example : (processCallW true cfgA [reqQ] .eagain).2.2.length = 11 := by decide
 
 end VncModel.Props.C20
